@@ -28,6 +28,24 @@ def encoder():
     return _ENC
 
 
+_CDEC = None
+_CENC = None
+
+
+def compiled_decoder():
+    global _CDEC
+    if _CDEC is None:
+        _CDEC = sut.Decoder(compiled_template_cache_max=4)
+    return _CDEC
+
+
+def compiled_encoder():
+    global _CENC
+    if _CENC is None:
+        _CENC = sut.Encoder(compiled_template_cache_max=4)
+    return _CENC
+
+
 def subset_raws(case, i):
     fs = case.decoded.fields_of(i)
     return [case.decoded.raw(i, k) for k in range(len(fs)) if fs[k].kind != 'const']
@@ -83,6 +101,26 @@ def check_case(case):
         if obs['links'][i] != case.links()[i]:
             return out.fail('links of a subset decoded together differ from the expected ones', subset=i,
                             got=obs['links'][i], expected=case.links()[i])
+    # the same through the template-compiling decoder and encoder (for templates in the domain of compilation:
+    # operators opened and closed within one replication scope, C08): each subset still decodes to its own data
+    if not case.decoded.unbalanced():
+        out.classes.append('also_with_template_compilation')
+        oc = sut.call(compiled_decoder().process, case.bytes)
+        if not oc.ok:
+            return out.fail('decode of all subsets together raised %s@%s (template compilation)' % (oc.exc_type, oc.frame), error=oc.msg)
+        cobs = sut.observe(oc.value)
+        for i in range(n):
+            d = first_value_diff(cobs['values'][i], case.values()[i])
+            if d is not None:
+                return out.fail('subset decoded together differs from its data (template compilation)', subset=i, index=d[0],
+                                got=d[1], expected=d[2])
+            if cobs['links'][i] != case.links()[i] or cobs['labels'][i] != obs['labels'][i]:
+                return out.fail('links / labels of a subset decoded together differ from the expected ones (template compilation)',
+                                subset=i, got=cobs['links'][i], expected=case.links()[i])
+        oce = sut.call(compiled_encoder().process, encutil.flat_json_of_case(case))
+        if not oce.ok or oce.value.serialized_bytes != case.bytes:
+            return out.fail('encoded bytes are not the concatenation of the single-subset data sections (template compilation)',
+                            error=None if oce.ok else oce.msg)
     # each subset alone
     for i in range(n):
         single = sub_message(case, [i])
